@@ -77,7 +77,7 @@ def classify(op):
     if name in ("resample",):
         return name
     lists = [op[1]] + ([op[2]] if name == "adjust" else [])
-    hid = any(c == wk.HID for L in lists for _, c in L["e"])
+    hid = any(wk.is_hidden(c) for L in lists for _, c in L["e"])
     om = any(L["omit"] for L in lists)
     return "%s:%s%s" % (name, "hidden-entry" if hid else "plain", "+omit-all" if om else "")
 
